@@ -127,7 +127,9 @@ def run_case(desc):
         h = core_history(desc['i'])
     else:
         h = histories.gen_history(rng, n, apps=apps)
-    proj = projlab.Project()
+    # every third case: the observed database is `other`, next to a
+    # fully installed `default` (projlab decoy mode)
+    proj = projlab.Project(decoy=desc.get('i', 0) % 3 == 1)
     items, stats = [], {'histories': 1, 'steps': 0}
     try:
         labels_at = histories.write_project(proj, h, apps)
@@ -266,6 +268,7 @@ def run_case(desc):
                                   'evolution_required',
                                   'diff_evolutions_empty')}})
     finally:
+        stats['decoy_runs'] = proj.decoy_runs
         proj.cleanup()
     nontrivial = len(set(S.canon(s) for s in h.specs)) >= 2
     ops = [seqcase.op_kinds(st) for st in h.steps]
